@@ -34,6 +34,10 @@ of its clauses have parts that are closed-form code and table agreement; only th
                or lm + lg) over the phase's reaction and SI is IAP - lk
   C01.readout  "log a = log m + log gamma", activity = 10^(log activity), gamma = 10^(log gamma), SR = 10^SI, pH = -log a(H+):
                the paired BASIC read-out functions and the pH writers agree as exact rational functions of the species fields
+  C01.slotloops every loop over the analytic log K slots runs from T_A1 through T_A6 inclusive (the sixth coefficient is converted, reset, copied
+               and accumulated like the other five)
+  C01.totunits  TOT is a molality, TOTMOLE an amount: every branch of Phreeqc::total divides the model amount by mass_water_aq_x, no branch
+               of Phreeqc::total_mole does (unit typestate over the two sibling case analyses)
   C01.rewrite  rewriting of a reaction to the model's master species: the couple selected for a rewritten secondary master replaces
                exactly (token coefficient) x coef_e electrons, in every branch of write_mass_action_eqn_x (polynomial identity)
 Not decided: everything that depends on the numerical solution (mass action per species, element totals, charge balance, ionic
@@ -134,6 +138,78 @@ def leaf_name(n):
     return f
 
 
+def slotloops_rule(P, R):
+    """The analytical expression of a log K has six coefficients, slots T_A1 .. T_A6 of the log K vector (the T^2 term T_A6 was added
+    last).  Every loop that walks the analytic slots (reset, copy, unit conversion, accumulation, the `is there an analytic expression`
+    test) starts at T_A1 and includes T_A6; a loop that stops before T_A6 treats the sixth coefficient differently from the other five."""
+    RULE = "C01.slotloops"
+    R.rule(RULE, "every loop over the analytic log K slots runs from T_A1 through T_A6 inclusive", minimum=6)
+    n = 0
+    for key, f in sorted(P.functions.items()):
+        if not f.get("body"):
+            continue
+        for lp in T.walk(f["body"]):
+            if lp[0] != "For" or not T.is_node(lp[2]) or not T.is_node(lp[3]):
+                continue
+            starts = any(y[0] == "Ref" and y[2] == "enum" and y[3].split("::")[-1] == "T_A1" for y in T.walk(lp[2]))
+            if not starts:
+                continue
+            c = T.strip_casts(lp[3])
+            ends = [y for y in T.walk(c) if y[0] == "Ref" and y[2] == "enum" and y[3].split("::")[-1] == "T_A6"]
+            if not ends or c[0] != "Bin":
+                continue
+            n += 1
+            inst = "%s@%d" % (f["q"].split("::")[-1], lp[1])
+            if c[2] == "<=":
+                R.ok(RULE, inst, "T_A1 .. T_A6 inclusive")
+            else:
+                R.violation(RULE, inst, "the loop over the analytic slots ends with `%s`: the sixth coefficient (T^2 term) is skipped - it is not converted / reset / copied like the other "
+                            "five, so a six-term expression gives a different log K(T) than its text" % T.text(c)[:30], file=f["file"], line=lp[1], function=f["q"])
+    if n < 6:
+        R.anchor_missing(RULE, "only %d loops over T_A1 .. T_A6 found" % n)
+
+
+def totunits_rule(P, R):
+    """"the species molalities add up to the reported element totals": BASIC TOT("x") is a molality, TOTMOLE("x") an amount.  The two
+    functions behind them (Phreeqc::total / total_mole) are the same case analysis; every model quantity total() returns - total_h_x,
+    total_o_x, cb_x, master->total, in every branch including the sum over the valence states of a redox element - is divided by the mass
+    of water, and none is in total_mole().  A branch that misses the division is right only for exactly 1 kg of water."""
+    RULE = "C01.totunits"
+    R.rule(RULE, "Phreeqc::total returns every amount divided by mass_water_aq_x (TOT is a molality); total_mole divides none (TOTMOLE is an amount)", minimum=10)
+    AMOUNTS = ("master::total", "Phreeqc::total_h_x", "Phreeqc::total_o_x", "Phreeqc::cb_x")
+    for q, per_kg in (("Phreeqc::total", True), ("Phreeqc::total_mole", False)):
+        fs = [g for g in P.fns_named(q) if g.get("body") and len(g["pnames"]) == 1]
+        if not fs:
+            R.anchor_missing(RULE, "%s not found" % q)
+            continue
+        f = fs[0]
+        where = dict(file=f["file"], function=f["q"])
+        exprs = [(x[1], x[2]) for x in T.walk(f["body"]) if x[0] == "Return" and T.is_node(x[2])]
+        exprs += [(x[1], x[4]) for x in T.walk(f["body"]) if x[0] == "Bin" and x[2] in ("=", "+=") and T.strip_casts(x[3])[0] == "Ref" and T.strip_casts(x[3])[3] == "t"]
+        n = 0
+        for line, e in exprs:
+            amts = [y for y in T.walk(e) if y[0] == "Member" and y[2] in AMOUNTS]
+            if not amts:
+                continue
+            n += 1
+            e0 = T.strip_casts(e)
+            while e0[0] == "Paren":
+                e0 = T.strip_casts(e0[2])
+            divided = e0[0] == "Bin" and e0[2] == "/" and any(y[0] == "Member" and y[2] == "Phreeqc::mass_water_aq_x" for y in T.walk(e0[4])) \
+                and any(y[0] == "Member" and y[2] in AMOUNTS for y in T.walk(e0[3]))
+            inst = "%s@%d" % (q.split("::")[-1], line)
+            if divided == per_kg:
+                R.ok(RULE, inst, "`%s`" % T.text(e)[:50])
+            elif per_kg:
+                R.violation(RULE, inst, "Phreeqc::total returns `%s`, an amount in moles, where every sibling branch returns amount / mass_water_aq_x: TOT of this kind of name is a "
+                            "molality only when the solution holds exactly 1 kg of water, so TOT(\"C\") disagrees with the sum of the species molalities and with TOT of its "
+                            "valence states after -water, evaporation or a reaction that changes the water mass" % T.text(e)[:50], line=line, **where)
+            else:
+                R.violation(RULE, inst, "Phreeqc::total_mole divides `%s` by the mass of water: TOTMOLE would return a molality" % T.text(e)[:50], line=line, **where)
+        if n < 5:
+            R.anchor_missing(RULE, "%s: only %d amount-returning expressions found" % (q, n))
+
+
 def rewrite_rule(P, R):
     """Rewriting a mass-action equation to the master species of the model (write_mass_action_eqn_x): a token that is a rewritten
     secondary master (Fe+3 when total Fe is entered) is replaced by its defining reaction times the token's coefficient c, and the
@@ -208,6 +284,8 @@ def rewrite_rule(P, R):
 
 
 def run(P, R, tier):
+    slotloops_rule(P, R)
+    totunits_rule(P, R)
     rewrite_rule(P, R)
     R.undecided += ["mass-action residual of every aqueous species at the reported solution (numerical)",
                     "element totals, charge balance, ionic strength and alkalinity sums (numerical)",
